@@ -35,7 +35,7 @@ class C02(Prop):
         "1-3 octets), 0..40 varbinds with each type at every position, carried in v1/v2c/v3 (plain, auth, DES, AES) and read through get / get_many "
         "(scripted replies) and getnext / getbulk (RFC agent over a MIB of such values), sync and async, after earlier traffic on pooled and "
         "cipher-private buffers. oracle: Python value and dotted key equal the model's denotation (type-exact, NaN by isnan, -0.0 by sign). "
-        "non-trivial = at least one non-default value compared; distinct = abstract trace + multiset of (type, content length) delivered"
+        "also: long-form lengths of 1..126 octets on values and on every header element (widths), Opaque / OCTET STRING contents that look like BER (net-snmp float wrappers, nested TLVs), BOOLEAN TRUE octets other than ff, kilobyte strings, names and OID values under 0.x / 2.x incl. 2.40 and beyond; no prediction for replies beyond 4080 octets. non-trivial = at least one non-default value compared; distinct = abstract trace + multiset of (type, content length) delivered"
     )
     quick_runs = 15000
     thorough_runs = 250000
